@@ -399,7 +399,7 @@ def strategy():
 
     item = hs.tuples(hs.integers(0, 3), hs.integers(0, 20), op, hs.lists(hs.tuples(hs.integers(0, 20), meta_op), min_size=1, max_size=3))
     picks = hs.lists(hs.tuples(hs.lists(item, min_size=1, max_size=3), hs.sampled_from([0, 0, 0, 1])), min_size=1, max_size=3)
-    return hs.builds(build, model.document(depth=3, zones=True, comments=True, max_nodes=6, meta_zones=False, avoid=AVOID, empty_containers=False), picks).filter(lambda c: c["requests"])
+    return hs.builds(build, model.document(depth=3, zones=True, comments=True, max_nodes=6, meta_zones=False, avoid=AVOID, empty_containers=False), picks)  # (cases without a request are skipped by the caller: a .filter() on a strategy this size makes Hypothesis build its multi-GB repr)
 
 
 def shard(ctx: Ctx, sh: int, nshards: int, n: int) -> Stats:
@@ -412,6 +412,8 @@ def shard(ctx: Ctx, sh: int, nshards: int, n: int) -> Stats:
             unreadable_cases(st, root)
 
         def one(case):
+            if not case["requests"]:
+                return
             counter[0] += 1
             fails, nt = check(case, root, counter[0] % 3 == 0)
             ops = sorted({(o["op"] if o["op"] != "value" else "value_" + VALUE_POOL[o["i"]]["v"]) for r in case["requests"] for _, o in r["items"]})
